@@ -1049,6 +1049,8 @@ def join_refs(procs, timeout):
         if r["timeout"]:
             timeouts.append((n, r["nsteps"] - 1))
         for key, val, i in r["obs"]:
+            if r["timeout"] and i >= r["nsteps"] - 1:
+                continue      # the op that hit the time limit has no value to compare (it is repeated alone, see confirmed_timeout)
             refs.setdefault(key, []).append((val, ("ref", n, i)))
     return refs, hists, timeouts
 
@@ -1556,7 +1558,7 @@ def run(ctx):
         extra.append((spawn_ref(h, [21, 22][k], ctx.op_limit), str([21, 22][k]), h))
     try:
         try:
-            tables = Tables(lm, ctx.op_limit)
+            tables = Tables(lm, RETRY_OP_LIMIT)     # reference tables: the long limit (load must not look like non-termination)
         except RefFailure as e:
             ctx.count()
             ctx.fail("C08:exception", f"a fresh polytope cannot be built / subdivided / read: {e}", e.case(), expected=None, observed=e.err)
